@@ -234,8 +234,9 @@ theorem stream_header_equiv {st : Stream} (hs : st.state = some .header)
 /-- (D) from any stream in Data state, any chunk list then `finish` = the one-shot
 tail on `tmp ++ partialBuf ++ chunks.flatten` -/
 theorem data_phase_partial (hN : Need20) (cs : List Bytes) (st : Stream) (rs : RunState) (snk : Sink)
-    (hD : DataInv st rs) : Veq (streamRunFrom st cs snk) (sfin st rs cs.flatten snk) :=
-  data_run_partial hN cs st rs snk hD
+    (hD : DataInv st rs) (ho : st.options.allowIncomplete = false) :
+    Veq (streamRunFrom st cs snk) (sfin st rs cs.flatten snk) :=
+  data_run_partial hN cs st rs snk hD ho
 
 /-! ## non-vacuity -/
 
